@@ -55,12 +55,15 @@ inductive Kind where
   | internal
   /-- a user-level `_Introduce` (the one every graph gets from the builder is implicit in `PGraph`) -/
   | intro
+  /-- an `_Introduce` (user-level, or the result identities of a graph) that forwards an OPTIONAL-typed value:
+      the Identity it is built into accepts optional types only from `IDENTITY_OPTIONAL_MIN_OPSET` on -/
+  | introOpt
   /-- `_Inline`: the opset imports of the inlined model; whether any of its nodes is in the default domain -/
   | inline (imports : List Req) (hasDefault : Bool)
   /-- any other node class with `op_type = OpType(op, domain, version)`; `op` numbers `Generated.OpsetFacts.opNames` -/
   | op (domain : String) (op : Nat) (version : Nat)
   /-- a `Function` node (an `_InternalNode`); its body is `subs[0]` -/
-  | func (domain : String) (version : Nat)
+  | func (domain : String) (version : Nat) (name : String)
 deriving Repr, DecidableEq
 
 mutual
@@ -85,6 +88,8 @@ def PGraph.nodes : PGraph → List PNode | .mk ns => ns
 structure Facts where
   /-- `INTERNAL_MIN_OPSET` -/
   minOpset : Nat
+  /-- `IDENTITY_OPTIONAL_MIN_OPSET` -/
+  optionalMin : Nat
   /-- `SCHEMAS.get(domain, {}).get(version, {}).get(op)` as the `since_version` of the schema found -/
   schemaSince : String → Nat → Nat → Option Nat
 
@@ -92,9 +97,10 @@ structure Facts where
 def kindReq (F : Facts) : Kind → List Req
   | .internal => []
   | .intro => [("", F.minOpset)]
+  | .introOpt => [("", F.optionalMin)]
   | .inline imports _ => imports ++ [("", F.minOpset)]
   | .op d _ v => [(d, v)]
-  | .func d v => [(d, v)]
+  | .func d v _ => [(d, v)]
 
 mutual
 /-- everything a node contributes to the `opset_req` of the graph it is compiled in -/
@@ -163,7 +169,8 @@ def adaptBestEffort (F : Facts) (opsets : List Req) : PNode → Decision
         else if src ≠ tgt then .convertInline src tgt else .keepInline
   | .mk .internal _ _ _ _ => .keepInternal
   | .mk .intro _ _ _ _ => .keepInternal
-  | .mk (.func _ _) _ _ _ _ => .keepInternal
+  | .mk .introOpt _ _ _ _ => .keepInternal
+  | .mk (.func _ _ _) _ _ _ _ => .keepInternal
   | .mk (.op d o v) nProtos concrete subs _ =>
       if nProtos ≠ 1 then .keepProtos
       else if !subs.isEmpty then .keepSubgraph
@@ -198,7 +205,7 @@ def adaptNode (F : Facts) (ctx opsets : List Req) : PNode → List Entry
   | .mk k np c subs i =>
       ⟨opsets, .mk k np c subs i, adaptBestEffort F opsets (.mk k np c subs i)⟩ ::
         (match k with
-         | .func _ _ => []
+         | .func _ _ _ => []
          | _ => adaptBodies F ctx subs)
 def adaptBodies (F : Facts) (ctx : List Req) : List PGraph → List Entry
   | [] => []
@@ -224,7 +231,7 @@ def funcsOfNodes : List PNode → List PGraph
   | [] => []
   | n :: ns => funcsOfNode n ++ funcsOfNodes ns
 def funcsOfNode : PNode → List PGraph
-  | .mk (.func _ _) _ _ subs _ => funcsOfBodies subs
+  | .mk (.func _ _ _) _ _ subs _ => funcsOfBodies subs
   | .mk _ _ _ _ _ => []
 def funcsOfBodies : List PGraph → List PGraph
   | [] => []
@@ -233,12 +240,54 @@ def subFuncsOfNodes : List PNode → List PGraph
   | [] => []
   | n :: ns => subFuncsOfNode n ++ subFuncsOfNodes ns
 def subFuncsOfNode : PNode → List PGraph
-  | .mk (.func _ _) _ _ _ _ => []
+  | .mk (.func _ _ _) _ _ _ _ => []
   | .mk _ _ _ subs _ => funcsOfGraphs subs
 def funcsOfGraphs : List PGraph → List PGraph
   | [] => []
   | g :: gs => funcsOfGraph g ++ funcsOfGraphs gs
 end
+
+/-- the key `to_onnx_model` merges function definitions under: `(proto.domain, proto.name)` -/
+abbrev FKey := String × String
+
+mutual
+/-- the keys of `BuildResult.functions`, occurrence by occurrence, in the order of `funcsOfGraph` -/
+def funcKeysOfGraph : PGraph → List FKey
+  | .mk nodes => funcKeysOfNodes nodes ++ subFuncKeysOfNodes nodes
+def funcKeysOfNodes : List PNode → List FKey
+  | [] => []
+  | n :: ns => funcKeysOfNode n ++ funcKeysOfNodes ns
+def funcKeysOfNode : PNode → List FKey
+  | .mk (.func d _ nm) _ _ subs _ => funcKeysOfBodies (d, nm) subs
+  | .mk _ _ _ _ _ => []
+def funcKeysOfBodies (key : FKey) : List PGraph → List FKey
+  | [] => []
+  | g :: gs => (key :: funcKeysOfGraph g) ++ funcKeysOfBodies key gs
+def subFuncKeysOfNodes : List PNode → List FKey
+  | [] => []
+  | n :: ns => subFuncKeysOfNode n ++ subFuncKeysOfNodes ns
+def subFuncKeysOfNode : PNode → List FKey
+  | .mk (.func _ _ _) _ _ _ _ => []
+  | .mk _ _ _ subs _ => funcKeysOfGraphs subs
+def funcKeysOfGraphs : List PGraph → List FKey
+  | [] => []
+  | g :: gs => funcKeysOfGraph g ++ funcKeysOfGraphs gs
+end
+
+/-- The loop of `to_onnx_model` over `functions`: a definition is kept under its key the first time the key
+    is seen; a later occurrence of the key must carry an equal definition, otherwise the build raises
+    ("… has two different definitions") — `none`. -/
+def mergeInto {δ : Type} [DecidableEq δ] (acc : List (FKey × δ)) : List (FKey × δ) → Option (List (FKey × δ))
+  | [] => some acc
+  | (k, d) :: rest =>
+    match acc.lookup k with
+    | none => mergeInto (acc ++ [(k, d)]) rest
+    | some d' => if d' = d then mergeInto acc rest else none
+
+def mergeFuncs {δ : Type} [DecidableEq δ] (l : List (FKey × δ)) : Option (List (FKey × δ)) := mergeInto [] l
+
+/-- what the opset model knows of one adapted node of a function definition -/
+def entryView (e : Entry) : List Req × Decision := (e.opsets, e.decision)
 
 /-- What `to_onnx_model` assembles, at the level of opsets. -/
 structure ModelOut where
@@ -261,6 +310,17 @@ def buildModelWith (F : Facts) (extra : List Req) (g : PGraph) : ModelOut :=
   { imports := imports
     main := adaptGraph F extra g
     funcs := (funcsOfGraph g).map (fun fg => (opsetsOf F imports fg, adaptGraph F imports fg)) }
+
+/-- a function definition as far as opsets go: its imports and, node by node, opsets and decision -/
+abbrev FuncDef := List Req × List (List Req × Decision)
+
+/-- the occurrences `to_onnx_model` iterates over: key and definition -/
+def funcOccurrences (F : Facts) (extra : List Req) (g : PGraph) : List (FKey × FuncDef) :=
+  (funcKeysOfGraph g).zip ((buildModelWith F extra g).funcs.map (fun f => (f.1, f.2.map entryView)))
+
+/-- `model.functions`: `none` when the build raises for two different definitions under one key -/
+def emittedFunctions (F : Facts) (extra : List Req) (g : PGraph) : Option (List (FKey × FuncDef)) :=
+  mergeFuncs (funcOccurrences F extra g)
 
 /-! ## names introduced by adaptation -/
 
@@ -305,7 +365,8 @@ def genSchemaSince (d : String) (o v : Nat) : Option Nat :=
         if s = 0 then none else some s
 
 def genFacts : Facts :=
-  { minOpset := Generated.OpsetFacts.internalMinOpset, schemaSince := genSchemaSince }
+  { minOpset := Generated.OpsetFacts.internalMinOpset, optionalMin := Generated.OpsetFacts.identityOptionalMin,
+    schemaSince := genSchemaSince }
 
 /-- A node written for since-version `s` of operator `o` is well-formed for the schema in force at
     version `t` of domain `d`. -/
